@@ -102,7 +102,8 @@ func AwaitTerminal(w *World, raw *fab.Node, from peer.ID, id graphsync.RequestID
 			}
 		}
 		if time.Now().After(deadline) {
-			return false, "no terminal status and no quiescence within the watchdog"
+			_, why := w.Q.Await(5, 50*time.Millisecond)
+			return false, "no terminal status and no quiescence within the watchdog (" + why + ")"
 		}
 	}
 }
